@@ -14,7 +14,7 @@ CHECKS = {
          "Extended formulae with colour-dependent, empty and nested domains are judged against Hctl.Sat; both sides of the README equivalences are evaluated through the API and judged equal and correct."),
  "C03": ("trace validation of every kind of call on constrained networks (Trace_Sem 'unit'); valid colours computed by BoolNet.tla; primitive-level trace validation of every symbolic primitive on arbitrary relations against its set-level contract (Trace_Rel over Rel.tla; drift = NOTE)",
          "TLC decides result <= universe(valid colours) and no dependence on auxiliary variables for every recorded call."),
- "C04": ("TLC model checking of the evaluator state machine with cache / counters / scopes (Evaluator.tla, MC_Evaluator: BatchTransparent, CacheSound, housekeeping, liveness); step-level validation of hook traces against the model (Trace_Eval); trace validation of batches vs single vs sharing-disabled evaluation (Trace_Sem 'equal')",
+ "C04": ("TLC model checking of the evaluator state machine with cache / counters / scopes (Evaluator.tla, MC_Evaluator: BatchTransparent, CacheSound, housekeeping, liveness); step-level validation of hook traces against the model (Trace_Eval); TLC model checking of the action-level cache protocol with quantifier scopes and the save rule (Cache.tla, MC_Cache: StoredValuesPortable, FetchBound, WildKept) and trace validation of the hooks' hit / miss / save / open / close events against its actions (Trace_Cache); trace validation of batches vs single vs sharing-disabled evaluation (Trace_Sem 'equal')",
          "Batches with forced overlap up to renaming, inside/outside domain scopes, permuted and repeated, with and without progress observer; TLC judges equality position by position."),
  "C08": ("trace validation of a formula and its textual rewrites (Trace_Sem 'equal')",
          "Alpha-renaming (incl. internal names permuted), blanks, redundant parentheses, long/short spellings, constant spellings; equal results required."),
@@ -22,7 +22,7 @@ CHECKS = {
          "Raw results of closed sub-formulae are fed back as wild-card context (1-3 simultaneous replacements); plain formulae through extended entry points with empty context."),
  "C11": ("law catalogue in TLA+ (Laws.tla) model-checked by TLC on all total Kripke structures up to 3 states x all argument sets (MC_Laws); both sides of every law judged against Hctl.Sat on small networks (Trace_Sem); TLC-exported catalogue replayed on the bundled benchmark models, BDD-equality facts checked by Trace_Laws; EF/AG/EU against the graph library's reachability",
          "Fixed-point characterisations, dualities, monotonicity, weak until, self-loops on steady states. On benchmark-size models the check is agreement between two computations (law replay), not comparison with the reference semantics."),
- "C12": ("MC_Evaluator with pattern-heavy pools; step-level hook traces (Trace_Eval); trace validation of pattern formulae vs pattern-defeating rewrites vs reference semantics (Trace_Sem 'denote','equal'); Attractor/Steady defined graph-theoretically in BoolNet.tla",
+ "C12": ("MC_Evaluator with pattern-heavy pools; step-level hook traces (Trace_Eval) and cache-protocol traces (Trace_Cache over Cache.tla); trace validation of pattern formulae vs pattern-defeating rewrites vs reference semantics (Trace_Sem 'denote','equal'); Attractor/Steady defined graph-theoretically in BoolNet.tla",
          "Patterns and near-misses at top level, under operators, in (domain-restricted) scopes, in batches, on constrained networks."),
  "C13": ("TLA+ weak-until semantics; trace validation of EW/AW formulae and of the defining equivalences evaluated through the tool (Trace_Sem 'denote','equal')",
          "EW/AW results judged against E[a U b] or EG a / not E[not b U (not a and not b)] computed by TLC."),
